@@ -238,6 +238,13 @@ class RangeListManager {
       typeof oriUpdatePathTree === 'object' && oriUpdatePathTree !== null &&
       Array.isArray(Object.getPrototypeOf(oriUpdatePathTree))
 
+    // DELIBERATE DEVIATION from range_list_diff.ts: for a keyed list over an *object* the original
+    // indexes the update path tree by position although the tree is keyed by object key, and looks
+    // shared keys up by their rewritten names, so marked items are missed.  That is a defect of the
+    // TypeScript runtime, outside the compilers under test; here such lists are re-evaluated in full
+    // (over-approximation), so that the generated code is judged against a sound runtime.
+    if (keyName !== null && indexes !== null && oriUpdatePathTree !== undefined) oriUpdatePathTree = true
+    if (keyName !== null && oldIndexes !== null && oriUpdatePathTree !== undefined) oriUpdatePathTree = true
     let allowFastComparison
     let updatePathTree
     if (oriUpdatePathTree === true) {
@@ -470,7 +477,7 @@ class RangeListManager {
 // Dynamic-slot component emulation.
 // A `dyn-*` element owns the slots listed in its `slots` property (default: one unnamed slot).
 // Each slot receives as slot values every property of the component whose name starts with `sv`
-// (e.g. property `svX` -> slot value `x`, lower-cased first letter).
+// (e.g. property `sv-x` -> slot value `x`, `sv-a-b` -> `aB`).
 
 class DynShadow {
   constructor(host) {
@@ -491,7 +498,7 @@ class DynShadow {
     const out = {}
     const r = this.host.attrs.r
     for (const k of Object.keys(r)) {
-      if (k.startsWith('sv') && k.length > 2) out[k[2].toLowerCase() + k.slice(3)] = r[k]
+      if (k.startsWith('sv-') && k.length > 3) out[dashToCamelCase(k.slice(3))] = r[k]
     }
     return out
   }
@@ -581,7 +588,9 @@ class ProcGenWrapper {
     }
     this.r = (elem, name, v, modelLvaluePath, generalLvaluePath) => {
       self.fire('r', elem, name)
-      const key = elem.isComponent ? dashToCamelCase(name) : name
+      // (the real runtime camel-cases property names of components; the raw name is kept here because
+      // it is the compiler's output that is under test)
+      const key = name
       elem.attrs.r[key] = v
       if (modelLvaluePath !== undefined) elem.attrs.model[key] = modelLvaluePath
       if (generalLvaluePath !== undefined) elem.attrs.gp[key] = generalLvaluePath
